@@ -1,7 +1,7 @@
 //! Store scenarios under the shuttle scheduler: linearizability and batch atomicity (C06), held
 //! cursors while the store moves (C07), liveness of ingest vs compaction (C20).
 
-use std::collections::BTreeMap;
+use std::collections::{BTreeMap, BTreeSet};
 use std::ops::Bound;
 use std::path::{Path, PathBuf};
 use std::sync::atomic::{AtomicU64, Ordering};
@@ -880,6 +880,193 @@ pub fn tree_soak(seed: u64, worker: usize, slot: &Slot) {
     r.sample = Some(serde_json::json!({"clients": n_clients, "keys_per_client": nkeys, "rounds": rounds, "compaction_threads": compactors, "options": o.iter().map(|(k, v)| format!("{k}={v}")).collect::<Vec<_>>()}));
     drop(r);
     drop(tree);
+    let _ = std::fs::remove_dir_all(&dir);
+}
+
+/////////////////////////////////// crash images of concurrent runs ///////////////////////////////
+
+/// C02 rider: crashsim cuts sequential histories; here 1-3 writers run concurrently with the flush
+/// and compaction threads under the scheduler (so appends and fdatasyncs are coalesced across
+/// writers, memtables roll over with writers in flight), every mutating system call is recorded,
+/// and the recorded trace is cut at seeded points.  Each cut is materialised under persistence
+/// model A, B0 or Bn and reopened with the real code.  Writers own their keys, so per owner the
+/// recovered state of its keys must equal the state after its last acknowledged operation, or
+/// after the one operation that was in flight at the cut (wholly), and nothing else.
+pub fn kvs_crash(seed: u64, worker: usize, slot: &Slot) {
+    use crate::image::{Image, Persist};
+    let mut rng = Rng::new(seed);
+    let dir = fresh_dir(worker, "kcrash");
+    let root = dir.join("live");
+    let o: Vec<(&str, String)> = vec![
+        ("--memtable-size-bytes", rng.pick(&[0u64, 64, 200, 4096]).to_string()),
+        ("--mani-log-rollover-ratio", rng.pick(&[0u64, 1, 2]).to_string()),
+        ("--l0-mandatory-compaction-threshold-files", rng.pick(&[1u64, 2, 4]).to_string()),
+    ];
+    let opts = options(&root, &o);
+    crate::fsx::install(&root, None);
+    let kvs = Arc::new(KeyValueStore::open(opts.clone()).unwrap_or_else(|e| violation("open-error", format!("{e}"))));
+    let daemons = start_daemons(&kvs, rng.range(1, 2) as usize);
+    let n_w = rng.range(1, 3) as usize;
+    // per owner: list of (inv, ack, effects)
+    type Effects = Vec<(Vec<u8>, Option<u64>)>;
+    let logs: Arc<StdMutex<Vec<Vec<(usize, usize, Effects)>>>> = Arc::new(StdMutex::new(vec![Vec::new(); n_w]));
+    let mut handles = Vec::new();
+    for t in 0..n_w {
+        let kvs = Arc::clone(&kvs);
+        let logs = Arc::clone(&logs);
+        let mut rng = rng.fork();
+        let n = rng.range(3, 14);
+        handles.push(thread::spawn(move || {
+            for i in 0..n {
+                let k = |j: u64| vec![b'w', b'0' + t as u8, b'0' + j as u8];
+                let id = ((t as u64) << 32 | i) + 1;
+                let mut effects: Effects = Vec::new();
+                let inv = crate::fsx::trace_len();
+                match rng.below(8) {
+                    0 => {
+                        let key = k(rng.below(3));
+                        kvs.del(&key).unwrap_or_else(|e| violation("del-error", format!("{e}")));
+                        effects.push((key, None));
+                    }
+                    1 | 2 => {
+                        let mut wb = WriteBatch::with_capacity(3);
+                        for j in 0..3u64 {
+                            if rng.chance(2, 3) {
+                                let key = k(j);
+                                if rng.chance(1, 5) {
+                                    wb.del(&key);
+                                    effects.push((key, None));
+                                } else {
+                                    wb.put(&key, &value(id * 8 + j, 24));
+                                    effects.push((key, Some(id * 8 + j)));
+                                }
+                            }
+                        }
+                        if effects.is_empty() {
+                            let key = k(0);
+                            wb.put(&key, &value(id * 8, 24));
+                            effects.push((key, Some(id * 8)));
+                        }
+                        kvs.write(wb).unwrap_or_else(|e| violation("write-error", format!("{e}")));
+                    }
+                    _ => {
+                        let key = k(rng.below(3));
+                        kvs.put(&key, &value(id * 8, 24)).unwrap_or_else(|e| violation("put-error", format!("{e}")));
+                        effects.push((key, Some(id * 8)));
+                    }
+                }
+                let ack = crate::fsx::trace_len();
+                logs.lock().unwrap()[t].push((inv, ack, effects));
+            }
+        }));
+    }
+    for h in handles {
+        if h.join().is_err() {
+            violation("client-panicked", "a writer panicked".into());
+        }
+    }
+    kvs.verif_wait_flush_idle();
+    let work = kvs.verif().work_done();
+    stop_daemons(&kvs, daemons, "");
+    drop(kvs);
+    let trace = crate::fsx::uninstall().map(|c| c.trace).unwrap_or_default();
+    let logs = logs.lock().unwrap().clone();
+    // cut points: seeded, biased into the extents of client writes
+    let mut cuts: BTreeSet<usize> = BTreeSet::new();
+    let mutating: Vec<usize> = trace.iter().enumerate().filter(|(_, e)| e.is_mutation()).map(|(i, _)| i).collect();
+    if mutating.is_empty() {
+        violation("harness:no-system-calls-recorded", "the recording seam saw nothing".into());
+    }
+    let all_writes: Vec<(usize, usize)> = logs.iter().flatten().map(|(a, b, _)| (*a, *b)).collect();
+    for _ in 0..rng.range(5, 9) {
+        if rng.chance(2, 3) && !all_writes.is_empty() {
+            let (a, b) = all_writes[rng.usize_below(all_writes.len())];
+            cuts.insert(a + rng.usize_below((b - a).max(1) + 1));
+        } else {
+            cuts.insert(mutating[rng.usize_below(mutating.len())]);
+        }
+    }
+    let mut images = 0u64;
+    let mut inflight_seen = 0u64;
+    let mut differs_from_a = 0u64;
+    for (ci, k) in cuts.iter().copied().enumerate() {
+        let mut img = Image::new();
+        for ev in trace[..k.min(trace.len())].iter() {
+            img.step(ev);
+        }
+        let persists: Vec<Persist> = if img.has_unsynced() {
+            differs_from_a += 1;
+            vec![Persist::A, Persist::BNone, Persist::BSome(rng.next_u64())]
+        } else {
+            vec![Persist::A]
+        };
+        for (pi, persist) in persists.into_iter().enumerate() {
+            let iroot = dir.join(format!("img-{ci}-{pi}"));
+            img.materialize(&iroot, persist).unwrap_or_else(|e| violation("harness:materialize", format!("{e}")));
+            images += 1;
+            let o2 = options(&iroot, &o);
+            let re = match KeyValueStore::open(o2) {
+                Ok(s) => s,
+                Err(e) => violation(
+                    &format!("reopen-failed-after-crash:{}", crate::panic_class(&format!("{e}").chars().take(90).collect::<String>())),
+                    format!("cut {k} of {} model {persist:?}: {e}", trace.len()),
+                ),
+            };
+            for (t, log) in logs.iter().enumerate() {
+                // candidate prefixes of this owner's operations
+                let acked = log.iter().take_while(|(_, ack, _)| *ack <= k).count();
+                let mut candidates = vec![acked];
+                if acked < log.len() && log[acked].0 < k {
+                    candidates.push(acked + 1);
+                    inflight_seen += 1;
+                }
+                let mut got: BTreeMap<Vec<u8>, Option<u64>> = BTreeMap::new();
+                for j in 0..3u8 {
+                    let key = vec![b'w', b'0' + t as u8, b'0' + j];
+                    let mut tomb = false;
+                    let v = re.load(&key, &mut tomb).unwrap_or_else(|e| violation("read-error-after-crash", format!("cut {k} model {persist:?}: {e}")));
+                    got.insert(key, v.as_deref().map(value_id));
+                }
+                let matches = candidates.iter().any(|p| {
+                    let mut st: BTreeMap<Vec<u8>, Option<u64>> = BTreeMap::new();
+                    for j in 0..3u8 {
+                        st.insert(vec![b'w', b'0' + t as u8, b'0' + j], None);
+                    }
+                    for (_, _, eff) in log[..*p].iter() {
+                        for (key, v) in eff {
+                            st.insert(key.clone(), *v);
+                        }
+                    }
+                    st == got
+                });
+                if !matches {
+                    let class = if candidates.len() == 1 { "acknowledged-state-not-recovered" } else { "neither-before-nor-after-the-write-in-flight" };
+                    violation(
+                        &format!("{class}:{}", match persist { Persist::A => "A", Persist::BNone => "B0", Persist::BSome(_) => "Bn" }),
+                        format!(
+                            "cut {k} of {} model {persist:?}: owner {t} recovered {:?}; acknowledged operations {acked} of {}, in flight: {}",
+                            trace.len(),
+                            got.iter().map(|(k, v)| (String::from_utf8_lossy(k).to_string(), *v)).collect::<Vec<_>>(),
+                            log.len(),
+                            candidates.len() == 2
+                        ),
+                    );
+                }
+            }
+            drop(re);
+            let _ = std::fs::remove_dir_all(&iroot);
+        }
+    }
+    let mut r = slot.lock().unwrap();
+    r.order_hash = rng::mix(&[seed, work, trace.len() as u64]);
+    r.nontrivial = work > 0 && inflight_seen > 0;
+    r.steps = trace.len() as u64;
+    *r.probes.entry("crash_images_of_concurrent_runs".into()).or_insert(0) += images;
+    *r.probes.entry("crash_cuts_with_a_write_in_flight".into()).or_insert(0) += inflight_seen;
+    *r.probes.entry("crash_cuts_with_unsynced_bytes".into()).or_insert(0) += differs_from_a;
+    *r.probes.entry("crash_recorded_system_calls".into()).or_insert(0) += trace.len() as u64;
+    r.sample = Some(serde_json::json!({"writers": n_w, "cuts": cuts.len(), "options": o.iter().map(|(k, v)| format!("{k}={v}")).collect::<Vec<_>>()}));
+    drop(r);
     let _ = std::fs::remove_dir_all(&dir);
 }
 
